@@ -331,11 +331,11 @@ def gen_tags(d, nconn, tagged=None):
     return [str((base + k) << 8 | d.int(3, 30)) for k in range(nconn)]
 
 
-def next_gap(d):
-    return d.choice(GAPS) if d.chance(0.7) else d.int(0, 3_000_000)
+def next_gap(d, gaps=None):
+    return d.choice(gaps or GAPS) if d.chance(0.7) else d.int(0, 3_000_000)
 
 
-def history(d, nconn=None, nmsg=None, tagged=None, profile=None, t0=None):
+def history(d, nconn=None, nmsg=None, tagged=None, profile=None, t0=None, gaps=None):
     """list of message specs (with conn tag and t_us) over 1..nconn interleaved connections"""
     nconn = nconn or d.int(1, 3)
     nmsg = nmsg if nmsg is not None else d.int(1, 40)
@@ -345,7 +345,7 @@ def history(d, nconn=None, nmsg=None, tagged=None, profile=None, t0=None):
     out = []
     for _ in range(nmsg):
         c = d.choice(conns)
-        t = min(t + next_gap(d), T_MAX)     # stated bound: no 32-bit wrap-around of libwayland's clock
+        t = min(t + next_gap(d, gaps), T_MAX)     # stated bound: no 32-bit wrap-around of libwayland's clock
         m = c.next(d)
         m['conn'] = c.tag
         m['t_us'] = t
